@@ -328,7 +328,14 @@ func genC04Val(t *rapid.T) (*C04Val, map[string]bool) {
 		c.CLI = rapid.IntRange(0, 7).Draw(t, "rejectedcli") == 0
 		body = append(body, ast.ExprS(ast.Set(ast.Dollar(), rootExpr)))
 	} else {
-		body = append(body, ast.Print(ast.Call(ast.Id("json"), rootExpr)))
+		if rapid.IntRange(0, 3).Draw(t, "twojson") == 0 {
+			// two results of json() alive in one statement: each is the text of its own value
+			body = append(body, ast.Print(ast.Call(ast.Id("json"), rootExpr), ast.Call(ast.Id("json"), ast.Arr(ast.Num("1"), ast.Str("two"), ast.Obj(ast.KV("three", ast.Null()))))),
+				ast.Print(ast.Call(ast.Id("json"), ast.Bin("==", ast.Call(ast.Id("json"), ast.Str("x")), ast.Call(ast.Id("json"), ast.Str("y"))))))
+			g.labels["two-json-results-in-one-statement"] = true
+		} else {
+			body = append(body, ast.Print(ast.Call(ast.Id("json"), rootExpr)))
+		}
 		if rootExpr.K == "id" && (root.kind == "arr" || root.kind == "obj") && len(root.kids) > 0 && rapid.Bool().Draw(t, "again") {
 			// the same container serialised again after a change that keeps its size
 			var tgt *ast.Node
